@@ -159,7 +159,7 @@ def _walk(ctx, args):
     return None
 
 
-CHECKS = {'walk': c_walk}
+CHECKS = {'ctor_fresh': __import__('props.C17', fromlist=['c_ctor_fresh']).c_ctor_fresh, 'walk': c_walk}
 
 
 def rstep(ctx, rng, N, pure_hint):
@@ -200,6 +200,12 @@ def run(ctx):
     # corpus: MeasureLayer on a mixed state (rank was dropped), mixed-state pivot witness
     do(ctx, 'walk', [1, ['mixed'], [['mlayer', [0], 1], ['mlayer', [0], 2]]], nontrivial='w1', sample=True)
     do(ctx, 'walk', [2, ['map', [[[1, 0, 0, 0], 0], [[0, 1, 0, 0], 0], [[0, 0, 1, 0], 0], [[0, 0, 0, 1], 0]], 1], [['measure', [[[1, 0, 1, 0], 0]], 3], ['measure', [[[1, 0, 1, 0], 2]], 4]]], nontrivial='w2')
+    # every constructor the walks start from hands out a FRESH valid tableau, whatever was built, compiled or run before on the same width
+    for be in ('np', 'torch'):
+        for what in ('identity_map', 'zero_state', 'mixed_state', 'ghz_state', 'stabilizer_state'):
+            for use in ('flip', 'library'):
+                for _ in range(max(2, int(2 * B))):
+                    do(ctx, 'ctor_fresh', [be, what, rng.randint(1, 4), rng.randrange(10 ** 6), use], nontrivial=('cf', be, what, use, ctx.res.evaluations))
     nwalks = int(150 * B)
     steps = 25 if ctx.tier == 'quick' else 120
     for it in range(nwalks):
